@@ -392,6 +392,17 @@ def to_spec_fn(text, item, where):
 def _find_ret_arrow(msig):
     # last `->` at paren depth 0 after the parameter list
     i = msig.index("fn ")
+    mg = re.match(r"fn\s+\w+\s*<", msig[i:])
+    if mg:
+        # generic parameters may contain parentheses and arrows themselves (`K: FnOnce(T) -> R`): skip the balanced `<..>`
+        depth, j = 1, i + mg.end()
+        while j < len(msig) and depth:
+            if msig[j] == "<":
+                depth += 1
+            elif msig[j] == ">" and msig[j - 1] != "-":
+                depth -= 1
+            j += 1
+        i = j
     p = msig.index("(", i)
     e = match_delim(msig, p)
     a = msig.find("->", e)
